@@ -75,9 +75,13 @@ pub enum Topology {
     ValueChainHoldsClone,
     /// the panicking call is made through a clone while the original waits in the same scope
     CallThroughClone,
+    /// a destructor that runs during the unwinding builds a mock of its own (unmet expectations) and drops it
+    MockBuiltByDestructor,
+    /// as above, and the destructor drops that original while a clone of it is still alive
+    MockAndCloneBuiltByDestructor,
 }
 
-pub const TOPOLOGIES: [Topology; 11] = [
+pub const TOPOLOGIES: [Topology; 13] = [
     Topology::OriginalOnly,
     Topology::CloneDroppedBeforeOriginal,
     Topology::CloneDroppedAfterOriginal,
@@ -89,6 +93,8 @@ pub const TOPOLOGIES: [Topology; 11] = [
     Topology::HelperCloneAlive,
     Topology::ValueChainHoldsClone,
     Topology::CallThroughClone,
+    Topology::MockBuiltByDestructor,
+    Topology::MockAndCloneBuiltByDestructor,
 ];
 
 #[derive(Clone, Copy, Debug, PartialEq, Eq, Hash, Serialize, Deserialize)]
@@ -283,6 +289,24 @@ fn calls_then_panic(case: &AbortCase, u: &Unimock) {
     panic!("HARNESS: origin {:?} did not panic", case.origin);
 }
 
+/// A scope guard whose destructor sets up and tears down its own mocked collaborator.
+struct BuildsMockOnDrop {
+    case: AbortCase,
+    with_clone: bool,
+}
+
+impl Drop for BuildsMockOnDrop {
+    fn drop(&mut self) {
+        // expectations of this mock are unmet (nothing is called on it)
+        let u = Unimock::new(setup(&self.case));
+        if self.with_clone {
+            let c = u.clone();
+            drop(u);
+            drop(c);
+        }
+    }
+}
+
 /// Builds the topology on the current thread and panics at the origin. `parked` receives a
 /// clone that must stay alive elsewhere; `premade` is an original created on another thread.
 fn body(case: &AbortCase, premade: Option<Unimock>, parked: &mut dyn FnMut(Unimock)) {
@@ -353,6 +377,12 @@ fn body(case: &AbortCase, premade: Option<Unimock>, parked: &mut dyn FnMut(Unimo
         Topology::ValueChainHoldsClone => {
             let u = premade.unwrap_or_else(new);
             let _lent: &Unimock = u.make_ref(u.clone());
+            calls_then_panic(case, &u);
+        }
+        Topology::MockBuiltByDestructor | Topology::MockAndCloneBuiltByDestructor => {
+            // declared first: dropped last, i.e. while the thread is unwinding
+            let _guard = BuildsMockOnDrop { case: *case, with_clone: case.topology == Topology::MockAndCloneBuiltByDestructor };
+            let u = premade.unwrap_or_else(new);
             calls_then_panic(case, &u);
         }
     }
@@ -796,7 +826,14 @@ pub fn table() -> Vec<AbortCase> {
                     if origin == Origin::ByValueDefaultBody
                         && matches!(
                             topology,
-                            Topology::InRc | Topology::InArc | Topology::InBox | Topology::HelperCloneAlive | Topology::ValueChainHoldsClone | Topology::CloneDroppedBeforeOriginal
+                            Topology::InRc
+                                | Topology::InArc
+                                | Topology::InBox
+                                | Topology::HelperCloneAlive
+                                | Topology::ValueChainHoldsClone
+                                | Topology::CloneDroppedBeforeOriginal
+                                | Topology::MockBuiltByDestructor
+                                | Topology::MockAndCloneBuiltByDestructor
                         )
                     {
                         continue; // by-value receiver needs the bare original
@@ -809,7 +846,7 @@ pub fn table() -> Vec<AbortCase> {
     v
 }
 
-pub const RULE: &str = "table = every panic origin {test body before/between/after calls, matcher, answer function, unmock function, default body, by-value default body, argument Debug rendering, return-value Clone, 7 mock-induced error kinds} x every instance topology {original only, clone dropped before / after the original, clone alive on another thread, original behind Rc / Arc / Box, original on a foreign thread, delegation helper alive, value chain holding a clone, call through a clone} x met/unmet expectations x error recorded earlier or not, enumerated exhaustively; run once on a spawned thread inside a crash-isolated worker and once as the main thread of a fresh child process. Non-trivial = teardown would panic if it ran (topology other than original-only, or unmet expectations, or recorded errors); distinct = distinct table cell";
+pub const RULE: &str = "table = every panic origin {test body before/between/after calls, matcher, answer function, unmock function, default body, by-value default body, argument Debug rendering, return-value Clone, 7 mock-induced error kinds} x every instance topology {original only, clone dropped before / after the original, clone alive on another thread, original behind Rc / Arc / Box, original on a foreign thread, delegation helper alive, value chain holding a clone, call through a clone, a mock (and a mock with a live clone) built and dropped by a destructor during the unwinding} x met/unmet expectations x error recorded earlier or not, enumerated exhaustively; run once on a spawned thread inside a crash-isolated worker and once as the main thread of a fresh child process. Non-trivial = teardown would panic if it ran (topology other than original-only, or unmet expectations, or recorded errors); distinct = distinct table cell";
 
 pub fn run(ctx: &Ctx) -> Verdict {
     let mut v = Verdict::new("fault_enumeration", RULE);
